@@ -1470,9 +1470,12 @@ class RTCSctpTransport(AsyncIOEventEmitter):
             self._t3_cancel()
             self.__state = "closed"
 
-            # close data channels
+            # close data channels, including those still waiting for an id
             for stream_id in list(self._data_channels.keys()):
                 self._data_channel_closed(stream_id)
+            for channel, _, _ in self._data_channel_queue:
+                channel._setReadyState("closed")
+            self._data_channel_queue.clear()
 
             # no more events will be emitted, so remove all event listeners
             # to facilitate garbage collection.
